@@ -60,6 +60,14 @@ CLAIMED = {
          "Decides structural clauses of C06 (NOT byte-level interoperability): plaintext only under AEAD-open/DEM-decrypt success, exact prefix, in-bounds slicing of the encapsulated key/header; KEM/KDF/AEAD ids, version label, kemLengths and suite-id composition equal RFC 9180 §7/IANA; every hash->size table gives the standard digest sizes; enum->name tables of the hybrid packages are injective; contextInfo of every Encrypt/Decrypt reaches the info_hash labeled extract (HPKE) or the HKDF info argument (ECIES).",
          "Trusted: go/ssa; the transcribed standard tables in checker/rules/c06.go; stdlib AEAD Open.",
          "DESIGN.md §4 C06"),
+ "C08": ("accept-side rules for DeterministicAEAD incl. recognition of the OR-of-XORs comparison loop with a full-length bound; constant folding of the KWP size guards at every boundary and of wrappingSize over its whole domain; dominance of the three KWP integrity facts",
+         "Decides structural clauses of C08 (NOT equality with RFC 5297/5649 values): AES-SIV plaintext is released only under a full 16-byte SIV comparison; prefix/tiling/bounds as C02; KWP Wrap accepts exactly 16..8192 and Unwrap exactly 24..8200 (multiples of 8) through their size guards; wrappingSize is 8*ceil(n/8)+8 on all 8177 inputs; Unwrap returns key material only under IV word, encoded size and zero padding checks.",
+         "Trusted: go/ssa; constant propagation; CMAC/S2V/W arithmetic is not decided.",
+         "DESIGN.md §4 C08"),
+ "C10": ("literal tables and constants recomputed/compared with FIPS 204 (zetas, parameter sets, inv256); constant folding of length formulas and of the signature-length guard per parameter set; comparator-shape obligations for verification/signing bounds and HintBitUnpack guards; output-prefix rule for every ML-DSA signer",
+         "Decides the constants, tables, comparators and guards of ML-DSA that known-answer tests cannot pin for every input (NOT the lattice arithmetic): q/d/zeta/inv256, all 256 zetas, the three parameter literals vs FIPS 204 Table 1, key/signature lengths 1312/2560/2420, 1952/4032/3309, 2592/4896/4627, sigDecode accepting exactly the signature length, HintBitUnpack's counter/index/padding guards, the verification norm bound and challenge comparison, the four signing rejection bounds, context length <= 255, and prefix||signature for every signer incl. the external-mu signer (a genuine defect there was found and fixed).",
+         "Trusted: go/ssa; FIPS 204 values transcribed in checker/rules/c10.go.",
+         "DESIGN.md §4 C10"),
 }
 
 NOT_APPLICABLE = {
